@@ -1284,9 +1284,7 @@ class Frame:
             hook = I_hook(self, "hook:str")
             if hook:
                 return hook(self, v)
-            if isinstance(v, dict) and not v:
-                return "{}"
-            raise AnalysisError(f"str() of container {v!r}")
+            return _simplify(self.repr_container(v))
         hook = I_hook(self, "hook:str")
         if hook:
             return hook(self, v)
@@ -1296,6 +1294,38 @@ class Frame:
 class _Gen:
     def __init__(self, items: list):
         self.items = items
+
+
+def _repr_of(fr: "Frame", v: Any) -> Any:
+    if isinstance(v, (str, SStr)):
+        return SStr(["'", as_sstr(v), "'"])
+    if isinstance(v, (list, tuple, dict)):
+        return fr.repr_container(v)
+    return as_sstr(fr.to_str(v))
+
+
+def _repr_container(self: "Frame", v: Any) -> SStr:
+    """Text of str(list / tuple / dict): punctuation plus the elements' own text (approximate repr)."""
+    parts: list[Any] = []
+    if isinstance(v, dict):
+        parts.append("{")
+        for i, (k, x) in enumerate(v.items()):
+            if i:
+                parts.append(", ")
+            parts += [_repr_of(self, k), ": ", _repr_of(self, x)]
+        parts.append("}")
+    else:
+        o, c = ("[", "]") if isinstance(v, list) else ("(", ")")
+        parts.append(o)
+        for i, x in enumerate(v):
+            if i:
+                parts.append(", ")
+            parts.append(_repr_of(self, x))
+        parts.append(c)
+    return SStr(parts)
+
+
+Frame.repr_container = _repr_container  # type: ignore[attr-defined]
 
 
 class OpaqueRun(SStr):
